@@ -34,6 +34,9 @@ CURATED_MOL = {
     "ethanol": (["C", "C", "O", "H", "H", "H", "H", "H", "H"], [(0, 1), (1, 2), (0, 3), (0, 4), (0, 5), (1, 6), (1, 7), (2, 8)]),
     "acetonitrile": (["C", "C", "N", "H", "H", "H"], [(0, 1), (1, 2), (0, 3), (0, 4), (0, 5)]),
     "chloroethanol": (["Cl", "C", "C", "O", "H", "H", "H", "H", "H"], [(0, 1), (1, 2), (2, 3), (1, 4), (1, 5), (2, 6), (2, 7), (3, 8)]),
+    # hydrogens that are not terminal: two fragments that differ only behind a bridging hydrogen
+    "NaHF+NaHCl": (["Na", "H", "F", "Na", "H", "Cl"], [(0, 1), (1, 2), (3, 4), (4, 5)]),
+    "LiHBeF+LiHBeCl": (["Li", "H", "Be", "F", "Li", "H", "Be", "Cl"], [(0, 1), (1, 2), (2, 3), (4, 5), (5, 6), (6, 7)]),
 }
 
 
@@ -121,7 +124,7 @@ def pipeline_jobs(factory, tier, *, relists=("atoms", "bonds", "labels", "recano
                 for r in ("labels", "recanon"):
                     js.append(job(module, factory, f"S-curated/{name}/{r}", dict(par, relist=r, K_m=min(par["K_m"], 1), K_r=0), max_seconds=ms))
         for name, (els, bonds) in CURATED_MOL.items():
-            if not thorough and name == "chloroethanol":
+            if not thorough and name in ("chloroethanol", "LiHBeF+LiHBeCl") and factory not in ("c13",):
                 continue
             par = dict(extra, n=len(els), elements=els, bonds=[list(b) for b in bonds], K_m=1, K_r=1 if thorough else 0)
             if curated_relist is not None:
@@ -135,7 +138,7 @@ def pipeline_jobs(factory, tier, *, relists=("atoms", "bonds", "labels", "recano
 
 def std_bounds(tier, relist=True):
     t = tier == "thorough"
-    b = {"atoms": "all labelled simple graphs on n <= %d atoms; curated skeletons (C6 ring, prism, K3,3, 2xC3, star K1,5, P8, cubane, C4+C4, C8 ring%s); curated molecules with hydrogens (ethanol, acetonitrile; thorough: 2-chloroethanol) with one label at a solver-chosen atom" % (5 if t else 4, ", Petersen" if t else ""),
+    b = {"atoms": "all labelled simple graphs on n <= %d atoms; curated skeletons (C6 ring, prism, K3,3, 2xC3, star K1,5, P8, cubane, C4+C4, C8 ring%s); curated molecules (ethanol, acetonitrile, Na-H-F + Na-H-Cl with bridging hydrogens; thorough and C13: 2-chloroethanol, Li-H-Be-F + Li-H-Be-Cl) with one label at a solver-chosen atom" % (5 if t else 4, ", Petersen" if t else ""),
          "labels": "at most K_m mass and K_r radical labels at solver-chosen atoms (%s; per-stratum values in `strata`), values symbolic integers >= 1, unbounded above" % ("thorough: K_m<=3, K_r<=2 up to 4 atoms, K_m<=2, K_r<=1 at 5 atoms for listing transpositions; fewer for the other description kinds: " + str(THOROUGH_LABELS) if t else "quick: K_m<=2, K_r<=1 for listing transpositions, K_m<=1, K_r<=1 otherwise"),
          "alphabets": {"S-shape": ["C"], "S-elem6 (n<=%d)" % (3 if t else 2): SIGMA_Q, "S-elem4 (n<=%d)" % (4 if t else 3): SIGMA_T4}}
     if relist:
